@@ -80,7 +80,11 @@ Globals0 ==
     timestamp_regexp     |-> "import",   \* constructor.py:310
     registries           |-> "import",   \* the six yaml_* tables of every class (Registry.tla; add_* is not an API call of C11)
     resolvers            |-> "import",   \* resolver.py:170-227
-    other                |-> EmptyDict ]
+    other                |-> EmptyDict,
+    \* NOT library state but the rest of the environment of a call: the objects the CALLER owns and hands in - the nodes
+    \* passed to serialize / serialize_all (the same value passed again = the same node objects).  What the library may
+    \* have written on them: marks per node identity.  No action of L writes here (frame: H_CallerObjects).
+    caller               |-> [serialized |-> {}, anchors |-> EmptyDict] ]
 
 \* a reference to a dict: the object's own dict or a global one
 OwnRef(d) == [ref |-> "own", own |-> d]
@@ -194,7 +198,7 @@ NChunks(src) == LET RECURSIVE S(_) S(j) == IF j = 0 THEN 0 ELSE S(j - 1) + 1 + L
 
 \* stream.read(): one chunk per call, '' at the end of the input (reader.py:177-185)
 ReadChunk(o, inj) ==
-  IF inj THEN Raise([o EXCEPT !.injected = o.ninv + 1], "INJ")
+  IF inj THEN Raise([o EXCEPT !.injected = o.ninv + 1, !.ninv = o.ninv + 1], "INJ")
   ELSE IF o.avail < NChunks(o.src) THEN [o EXCEPT !.avail = @ + 1, !.ninv = @ + 1]
   ELSE [o EXCEPT !.eof = TRUE, !.ninv = @ + 1]
 
@@ -314,7 +318,7 @@ LStepCore(o, g, inj) ==
            LET n == o.held[o.k + 1]
                oc == CtorOutcome(o.cls, n.it)
                o1 == [o EXCEPT !.k = @ + 1]
-           IN  IF IsCallback(o.cls, n.it) /\ inj THEN same(Raise([o1 EXCEPT !.injected = o.ninv + 1], "INJ"))
+           IN  IF IsCallback(o.cls, n.it) /\ inj THEN same(Raise([o1 EXCEPT !.injected = o.ninv + 1, !.ninv = o.ninv + 1], "INJ"))
                ELSE LET o2 == IF IsCallback(o.cls, n.it) THEN [o1 EXCEPT !.ninv = @ + 1] ELSE o1
                     IN  IF n.it = "dk" /\ oc = "err" THEN same(Raise([o2 EXCEPT !.deep = TRUE, !.recursive = @ \cup {o.k + 1}], "ConstructorError"))
                         ELSE IF oc = "err" THEN same(Raise([o2 EXCEPT !.recursive = @ \cup {o.k + 1}], "ConstructorError"))
@@ -322,7 +326,7 @@ LStepCore(o, g, inj) ==
                                              !.sgens = IF TwoPhase(o.cls, n.it) THEN Append(@, n.it) ELSE @])
     [] o.pc = "drain" ->          \* construct_document: run the queued generators (constructor.py:56-61)
          IF o.sgens = <<>> THEN same([o EXCEPT !.pc = "creset"])
-         ELSE IF Head(o.sgens) = "cg" /\ inj THEN same(Raise([o EXCEPT !.injected = o.ninv + 1, !.sgens = Tail(@)], "INJ"))
+         ELSE IF Head(o.sgens) = "cg" /\ inj THEN same(Raise([o EXCEPT !.injected = o.ninv + 1, !.ninv = o.ninv + 1, !.sgens = Tail(@)], "INJ"))
          ELSE same([o EXCEPT !.sgens = Tail(@), !.ninv = IF Head(o.sgens) = "cg" THEN @ + 1 ELSE @])
     [] o.pc = "creset" ->         \* construct_document: the three resets (constructor.py:62-64)
          LET o1 == [o EXCEPT !.constructed = <<>>, !.recursive = {}, !.deep = FALSE, !.held = <<>>, !.k = 0]
@@ -370,7 +374,7 @@ NewDumper(op, cls, be, vals, io) ==
     represented |-> {}, keeper |-> <<>>, aliasKey |-> "none", rnodes |-> <<>>, ri |-> 0,     \* Representer
     closed |-> "none", serialized |-> {}, sanchors |-> EmptyDict, lastAnchorId |-> 0,       \* Serializer
     pend |-> <<>>, evq |-> <<>>, tp |-> NoRef, wbuf |-> <<>>, au |-> Val(vals[1]).au,       \* Emitter: events, tag_prefixes, allow_unicode
-    written |-> <<>>, flushes |-> 0, rdepth |-> 0,                                          \* what the stream received; resolver stacks
+    written |-> <<>>, flushes |-> 0, rdepth |-> 0, openEnded |-> FALSE,                                          \* what the stream received; resolver stacks
     out |-> <<>>, end |-> "-", exc |-> "-", yielded |-> FALSE, disposed |-> FALSE, ninv |-> 0, injected |-> 0 ]
 
 Shared(it) == it \in {"x1", "x2", "rec"}
@@ -438,6 +442,12 @@ NeedMore(q) == \/ q = <<>>
                \/ q[1].k = "SQS" /\ NeedScan(q, 2, 1, 2)
 
 \* one event through the emitter state machine: the new tag_prefixes and the chunk it writes (<<>>: writes nothing)
+\* Emitter.open_ended: set by a plain scalar written as the root of a document (write_plain; the libyaml emitter does
+\* not do that for plain scalars), cleared by the next indicator
+OpenEndedAfter(o, e) == IF e.k \in {"DE", "STS"} THEN o.openEnded
+                        ELSE e.k = "SC" /\ e.t = "S" /\ o.be = "py"
+Marker == <<"...">>        \* the document end marker: framing between documents, not part of a document
+ChunkEmpty(o, e) == e.k = "STS" \/ (e.k = "STE" /\ ~o.openEnded)
 EmitOne(o, g, e) ==
   IF e.k = "DS" THEN
     \* expect_document_start (emitter.py:183-197): self.tag_prefixes = self.DEFAULT_TAG_PREFIXES.copy(), then the %TAGs
@@ -445,14 +455,15 @@ EmitOne(o, g, e) ==
               ELSE OwnRef(g.DEFAULT_TAG_PREFIXES)
         r1 == IF Mutation = "keep_tag_prefixes" /\ e.tags THEN OwnRef(g.DEFAULT_TAG_PREFIXES) ELSE r0
         w == IF e.tags THEN WriteRef(r1, g, EPrefix, "!e!") ELSE [r |-> r1, g |-> g]
-    IN  [tp |-> w.r, g |-> w.g, chunk |-> <<"DS", e.ver, e.tags>>]
+    IN  [tp |-> w.r, g |-> w.g,       \* '...' first if the previous document is open ended and directives follow
+         chunks |-> (IF o.openEnded /\ (e.ver \/ e.tags) THEN <<Marker>> ELSE <<>>) \o << <<"DS", e.ver, e.tags>> >>]
   ELSE IF e.k \in {"SC", "SQS"} THEN
     [tp |-> o.tp, g |-> g,
-     chunk |-> <<e.k, e.a, IF e.t = "ve" THEN (IF Has(Deref(o.tp, g), EPrefix) THEN "short" ELSE "verbatim")
-                           ELSE IF e.t = "nu" THEN (IF o.au THEN "raw" ELSE "escaped") ELSE e.t>>]
-  ELSE IF e.k = "STS" THEN [tp |-> o.tp, g |-> g, chunk |-> <<>>]
-  ELSE IF e.k = "STE" THEN [tp |-> o.tp, g |-> g, chunk |-> <<>>]
-  ELSE [tp |-> o.tp, g |-> g, chunk |-> <<e.k, e.a>>]
+     chunks |-> << <<e.k, e.a, IF e.t = "ve" THEN (IF Has(Deref(o.tp, g), EPrefix) THEN "short" ELSE "verbatim")
+                               ELSE IF e.t = "nu" THEN (IF o.au THEN "raw" ELSE "escaped") ELSE e.t>> >>]
+  ELSE IF e.k = "STS" THEN [tp |-> o.tp, g |-> g, chunks |-> <<>>]
+  ELSE IF e.k = "STE" THEN [tp |-> o.tp, g |-> g, chunks |-> IF o.openEnded THEN <<Marker>> ELSE <<>>]   \* expect_document_start on STREAM-END
+  ELSE [tp |-> o.tp, g |-> g, chunks |-> << <<e.k, e.a>> >>]
 
 \* SafeRepresenter has no representer for arbitrary objects; Representer (unsafe) represents them by reduction
 ReprOutcome(cls, it) ==
@@ -463,7 +474,7 @@ ValIsCallback(cls, it) == cls = "user" /\ it \in UserValItems
 Streams(o) == o.io = "file"
 
 DInvocation(o) ==
-  \/ o.pc = "pump" /\ ~NeedMore(o.evq) /\ o.evq[1].k \notin {"STS", "STE"} /\ o.be = "py" /\ Streams(o)
+  \/ o.pc = "pump" /\ ~NeedMore(o.evq) /\ ~ChunkEmpty(o, o.evq[1]) /\ o.be = "py" /\ Streams(o)
   \/ o.pc = "flush" /\ Streams(o)
   \/ o.pc = "cwrite" /\ Streams(o)
   \/ o.pc = "represent" /\ o.ri < Len(Val(o.vals[o.d]).items) /\ ValIsCallback(o.cls, Val(o.vals[o.d]).items[o.ri + 1])
@@ -471,9 +482,16 @@ DInvocation(o) ==
 \* stream.write(chunks): the injected failure, or the data arrives
 WriteTo(o, data, inj, nextpc) ==
   IF inj /\ Streams(o) THEN
-     IF Mutation = "wrap_write_error" THEN Raise([o EXCEPT !.injected = o.ninv + 1], "EmitterError")
-     ELSE Raise([o EXCEPT !.injected = o.ninv + 1], "INJ")
+     IF Mutation = "wrap_write_error" THEN Raise([o EXCEPT !.injected = o.ninv + 1, !.ninv = o.ninv + 1], "EmitterError")
+     ELSE Raise([o EXCEPT !.injected = o.ninv + 1, !.ninv = o.ninv + 1], "INJ")
   ELSE [o EXCEPT !.written = @ \o data, !.ninv = IF Streams(o) THEN @ + 1 ELSE @, !.pc = nextpc]
+
+\* an exception out of represent_data leaves through `finally: dumper.dispose()` only: Serializer.close() is NOT called on
+\* the error path, so no STREAM-END is emitted after the failure (__init__.py:238-244)
+ReprFails(o, x) == IF Mutation = "close_on_represent_error"        \* wrong: "end the stream properly", then re-raise
+                   THEN [Raise(o, x) EXCEPT !.closed = "true", !.pend = <<Ev("STE", 0, "-")>>, !.pc = "emit", !.ret = "dispose"]
+                   ELSE Raise(o, x)
+MarksOnNodes(o) == Mutation = "marks_on_nodes" /\ Level(o.op) = 2      \* wrong: serializer bookkeeping kept on the caller's nodes
 
 DStepCore(o, g, inj) ==
   LET same(o2) == [o |-> o2, g |-> g]
@@ -494,8 +512,8 @@ DStepCore(o, g, inj) ==
          IF o.ri = Len(items) THEN same([o EXCEPT !.pc = "serialize"])
          ELSE LET it == items[o.ri + 1]
                   o1 == [o EXCEPT !.ri = @ + 1]
-              IN  IF ValIsCallback(o.cls, it) /\ inj THEN same(Raise([o1 EXCEPT !.injected = o.ninv + 1], "INJ"))
-                  ELSE IF ReprOutcome(o.cls, it) # "ok" THEN same(Raise(o1, ReprOutcome(o.cls, it)))
+              IN  IF ValIsCallback(o.cls, it) /\ inj THEN same(ReprFails([o1 EXCEPT !.injected = o.ninv + 1, !.ninv = o.ninv + 1], "INJ"))
+                  ELSE IF ReprOutcome(o.cls, it) # "ok" THEN same(ReprFails(o1, ReprOutcome(o.cls, it)))
                   ELSE same([o1 EXCEPT !.ninv = IF ValIsCallback(o.cls, it) THEN @ + 1 ELSE @,
                                        !.aliasKey = ObjOf(it),
                                        !.represented = IF Shared(it) THEN @ \cup {it} ELSE @,
@@ -504,14 +522,20 @@ DStepCore(o, g, inj) ==
                                                              obj |-> ObjOf(it), id |-> NodeIdOf(ToString(o.d), ObjOf(it), o.ri + 1)])])
     [] o.pc = "serialize" ->           \* Serializer.serialize (serializer.py:46-58): anchor pass, then the events
          LET root == RootId(IF lvl = 3 THEN ToString(o.d) ELSE o.vals[o.d])
-             ap == AnchorDoc(root, o.rnodes, o.sanchors, o.lastAnchorId) IN
-         same([o EXCEPT !.sanchors = ap.anch, !.lastAnchorId = ap.lastId,
-                        !.serialized = @ \cup {o.rnodes[j].id : j \in DOMAIN o.rnodes} \cup {root},
-                        !.pend = DocEvents(root, o.rnodes, ap.anch, o.serialized, DocOpts(o, Val(o.vals[o.d]))),
-                        !.pc = "emit", !.ret = "sreset"])
+             anch0 == IF MarksOnNodes(o) THEN g.caller.anchors ELSE o.sanchors
+             done0 == IF MarksOnNodes(o) THEN g.caller.serialized ELSE o.serialized
+             ap == AnchorDoc(root, o.rnodes, anch0, o.lastAnchorId)
+             done1 == done0 \cup {o.rnodes[j].id : j \in DOMAIN o.rnodes} \cup {root}
+             o2 == [o EXCEPT !.lastAnchorId = ap.lastId,
+                             !.pend = DocEvents(root, o.rnodes, ap.anch, done0, DocOpts(o, Val(o.vals[o.d]))),
+                             !.pc = "emit", !.ret = "sreset"]
+         IN  IF MarksOnNodes(o) THEN [o |-> o2, g |-> [g EXCEPT !.caller = [serialized |-> done1, anchors |-> ap.anch]]]
+             ELSE same([o2 EXCEPT !.sanchors = ap.anch, !.serialized = done1])
     [] o.pc = "sreset" ->              \* serializer.py:56-58
          IF Mutation = "keep_serialized" /\ o.lastAnchorId = 0      \* wrong: "nothing to reset when no anchor was generated"
          THEN same([o EXCEPT !.pc = IF lvl = 3 THEN "rreset" ELSE "nextval"])
+         ELSE IF MarksOnNodes(o)                                    \* the release walk after DOCUMENT-END (success path only)
+         THEN [o |-> [o EXCEPT !.lastAnchorId = 0, !.pc = "nextval"], g |-> [g EXCEPT !.caller = Globals0.caller]]
          ELSE
          same([o EXCEPT !.serialized = {}, !.sanchors = EmptyDict,
                         !.lastAnchorId = IF Mutation = "keep_anchor_id" THEN @ ELSE 0,
@@ -527,14 +551,14 @@ DStepCore(o, g, inj) ==
          IF NeedMore(o.evq) THEN same([o EXCEPT !.pc = "emit"])
          ELSE LET e == o.evq[1]
                   r == EmitOne(o, g, e)
-                  o1 == [o EXCEPT !.evq = Tail(@), !.tp = r.tp]
+                  o1 == [o EXCEPT !.evq = Tail(@), !.tp = r.tp, !.openEnded = OpenEndedAfter(o, e)]
                   after == IF e.k = "DE" THEN (IF o.be = "py" THEN "flush" ELSE "cwrite")
                            ELSE IF e.k = "STE" THEN (IF o.be = "py" THEN "flush" ELSE "cwrite") ELSE "pump"
-              IN  IF r.chunk = <<>> THEN [o |-> [o1 EXCEPT !.pc = after], g |-> r.g]
-                  ELSE IF o.be = "py" THEN [o |-> WriteTo(o1, <<r.chunk>>, inj, after), g |-> r.g]
-                  ELSE [o |-> [o1 EXCEPT !.wbuf = Append(@, r.chunk), !.pc = after], g |-> r.g]      \* libyaml buffers
+              IN  IF r.chunks = <<>> THEN [o |-> [o1 EXCEPT !.pc = after], g |-> r.g]
+                  ELSE IF o.be = "py" THEN [o |-> WriteTo(o1, r.chunks, inj, after), g |-> r.g]
+                  ELSE [o |-> [o1 EXCEPT !.wbuf = @ \o r.chunks, !.pc = after], g |-> r.g]      \* libyaml buffers
     [] o.pc = "flush" ->               \* Emitter.flush_stream: stream.flush() if the stream has one
-         IF inj /\ Streams(o) THEN same(Raise([o EXCEPT !.injected = o.ninv + 1], "INJ"))
+         IF inj /\ Streams(o) THEN same(Raise([o EXCEPT !.injected = o.ninv + 1, !.ninv = o.ninv + 1], "INJ"))
          ELSE same([o EXCEPT !.flushes = @ + 1, !.ninv = IF Streams(o) THEN @ + 1 ELSE @, !.pc = "pump"])
     [] o.pc = "cwrite" ->              \* libyaml flushes its buffer through the write handler
          IF o.wbuf = <<>> THEN same([o EXCEPT !.pc = "pump"])
@@ -617,7 +641,7 @@ CallResult(o) ==
   IF o.kind = "loader" THEN [units |-> IF o.exc = "-" THEN o.out ELSE <<>>, end |-> o.end]
   ELSE [units |-> IF o.io = "file" \/ o.exc = "-" THEN o.written ELSE <<>>, end |-> o.end]
 \* what somebody who consumes the deliveries one by one gets (generators; the stream object of a dumper)
-ObsResult(o) == [units |-> IF o.kind = "loader" THEN o.out ELSE o.written, end |-> o.end]
+ObsResult(o) == [units |-> IF o.kind = "loader" THEN o.out ELSE SelectSeq(o.written, LAMBDA c : c # Marker), end |-> o.end]
 \* the result of one next()
 NextResult(o0, o1) ==
   [units |-> SubSeq(o1.out, Len(o0.out) + 1, Len(o1.out)),
@@ -775,7 +799,10 @@ SpecMicro == Init /\ [][MicroNext]_vars
 (* Properties                                                              *)
 (***************************************************************************)
 \* C11, first sentence: no call changes library-global state (also not in the middle of a call)
-H_Globals == HC!GlobalsUnchanged(globals, Globals0)
+LibraryPart(g) == [k \in DOMAIN g \ {"caller"} |-> g[k]]
+H_Globals == HC!GlobalsUnchanged(LibraryPart(globals), LibraryPart(Globals0))
+\* C19 "as if the failed call had not happened" / C11: what the caller handed in is as it was
+H_CallerObjects == globals.caller = Globals0.caller
 GlobalsFrame == [][globals' = globals]_vars
 
 \* L-level facts about object lifetime (__init__.py): an object is disposed when its call is over; whatever is still
